@@ -71,7 +71,7 @@ def lean_ty(t):
             return "(" + " → ".join([lean_ty(a) for a in t[1]] + [res]) + ")"
     return {"int": "Int", "bool": "Bool", "str": "Str", "bytes": "(List Nat)", "row": "Row", "frag": "Fragment", "gap": "Gap",
             "ovres": "OverlapResult", "scaffold": "Scaffold", "bytesio": "PyRt.BytesIO", "unit": "Unit", "sink_str": "Str",
-            "sink_bytes": "(List Nat)", "nat": "Nat", "trtable": "(Char → Char)", "fastainfo": "FastaInfo", "ovref": "Nat", "premise": "Premise", "store": "(List Res)", "scref": "Nat", "ffref": "Nat", "found": "Found"}[t]
+            "sink_bytes": "(List Nat)", "nat": "Nat", "trtable": "(Char → Char)", "fastainfo": "FastaInfo", "ovref": "Nat", "premise": "Premise", "store": "(List Res)", "scref": "Nat", "ffref": "Nat", "found": "Found", "namer": "PyRt.SrcNamer"}[t]
 
 
 # OBJECT TABLE: (type, python attribute) -> (result type, lean template, may raise)
@@ -97,6 +97,18 @@ ATTR = {
     ("scaffold", "rows"): (L("row"), "{0}.rows", False), ("scaffold", "name"): ("str", "{0}.name", False),
     ("fastainfo", "length"): ("int", "{0}.length", False),
     ("frag", "key_tuple"): (("tuple", ["str", "int", "int"]), "{0}.keyTuple", False),
+    ("namer", "autosome_prefix"): ("str", "{0}.autosome_prefix", False),
+    ("namer", "current_scaffold_name"): (O("str"), "{0}.current_scaffold_name", False),
+    ("namer", "current_rank"): (O("int"), "{0}.current_rank", False),
+    ("namer", "current_haplotype"): (O("str"), "{0}.current_haplotype", False),
+    ("namer", "haplotig_n"): ("int", "{0}.haplotig_n", False),
+    ("namer", "haplotig_scaffolds"): (L("ovref"), "{0}.haplotig_scaffolds", False),
+    ("namer", "primary_haplotype"): (O("str"), "{0}.primary_haplotype", False),
+    ("namer", "target_tags"): ("bool", "{0}.target_tags", False),
+    ("namer", "unloc_n"): ("int", "{0}.unloc_n", False),
+    ("namer", "unloc_scaffolds"): (L("ovref"), "{0}.unloc_scaffolds", False),
+    ("namer", "haplotype_lc_dict"): (("dict", "str", "str"), "{0}.haplotype_lc_dict", False),
+    ("ovres", "tag"): (O("str"), "{0}.tag", False), ("ovres", "haplotype"): (O("str"), "{0}.haplotype", False), ("ovres", "rank"): ("int", "{0}.rank", False),
     ("found", "fragment"): ("frag", "{0}.fragment", False), ("found", "scaffolds"): (L("ovref"), "{0}.scaffolds", False),
     ("found", "scaffold_count"): ("int", "(Int.ofNat {0}.scaffolds.length)", False),
     # overhang premises (heap kernels only: the templates read the store of OverlapResults)
@@ -108,7 +120,19 @@ ATTR = {
     ("ovres", "original_tags"): (O(L("str")), "{0}.originalTags", False),
 }
 # writable attributes: (type, attr) -> lean field
-FIELD = {("ovres", "start"): "start", ("ovres", "end"): "stop", ("ovres", "rows"): "rows", ("scaffold", "rows"): "rows"}
+FIELD = {("ovres", "start"): "start", ("ovres", "end"): "stop", ("ovres", "rows"): "rows", ("scaffold", "rows"): "rows", ("namer", "autosome_prefix"): "autosome_prefix", ("namer", "current_scaffold_name"): "current_scaffold_name", ("namer", "current_rank"): "current_rank", ("namer", "current_haplotype"): "current_haplotype", ("namer", "haplotig_n"): "haplotig_n", ("namer", "haplotig_scaffolds"): "haplotig_scaffolds", ("namer", "primary_haplotype"): "primary_haplotype", ("namer", "target_tags"): "target_tags", ("namer", "unloc_n"): "unloc_n", ("namer", "unloc_scaffolds"): "unloc_scaffolds", ("namer", "haplotype_lc_dict"): "haplotype_lc_dict"}
+# labelling attributes of an OverlapResult written through a reference: python attribute -> (model field, python type, conversion of the value)
+# (`name` / `rank` cannot hold None in the model's structure: a None name is kept as the text "None", a None rank as 0 — neither can arise after
+#  make_scaffold_name, which always sets a str name and an int rank)
+LABEL_FIELD = {"tag": ("tag", O("str"), "{0}"), "haplotype": ("haplotype", O("str"), "{0}"), "name": ("name", O("str"), "(PyRt.optStrText {0})"),
+               "rank": ("rank", O("int"), "(({0}).getD 0)"), "original_name": ("originalName", O("str"), "{0}"),
+               "original_tags": ("originalTags", O(L("str")), "{0}")}
+# class constants: dotted path -> (lean term, type)   (extracted from the source by T1)
+CLASS_CONST = {"self.OTHER_KNOWN_TAGS": ("Gen.otherKnownTags", L("str"))}
+# methods of `self` that are translated kernels of their own (defined EARLIER in the generated file): name -> (lean def, arg types, result type)
+SELF_KERNELS = {"get_set_haplotype": ("ScaffoldNamer_get_set_haplotype", ["str"], "str"),
+                "haplotig_name": ("ScaffoldNamer_haplotig_name", [], "str"), "unloc_name": ("ScaffoldNamer_unloc_name", [], "str"),
+                "haplotype_from_first_row_name": ("ScaffoldNamer_haplotype_from_first_row_name", ["scaffold"], O("str"))}
 # methods of self that mutate it: (type, method) -> lean function  `T → R T`
 MUT_METHOD = {("ovres", "discard_start"): "OverlapResult.discardStart", ("ovres", "discard_end"): "OverlapResult.discardEnd"}
 # pure methods: (type, method, arg types) -> (result type, template)
@@ -118,7 +142,9 @@ PURE_METHOD = {("frag", "abuts"): (["frag"], "bool", "(Fragment.abuts {0} {1})")
                # generator methods of Scaffold, as the lists they yield
                ("scaffold", "fragments"): ([], L("frag"), "(Scaffold.fragments {0})"),
                ("bytesio", "getvalue"): ([], "bytes", "({0}).data"),
-               ("ovres", "fragments"): ([], L("frag"), "(fragmentsOf {0}.rows)")}
+               ("ovres", "fragments"): ([], L("frag"), "(fragmentsOf {0}.rows)"),
+               ("scaffold", "fragment_tags"): ([], ("set", "str"), "(Scaffold.fragmentTags {0})"),
+               ("str", "lower"): ([], "str", "(lowerStr {0})")}
 # methods that read (may raise): (type, method) -> (arg types, result type, template of an R-term)
 IMPURE_METHOD = {("ovres", "overhang_if_start_removed"): ([], "int", "(OverlapResult.overhangIfStartRemoved {0})"),
                  ("ovres", "overhang_if_end_removed"): ([], "int", "(OverlapResult.overhangIfEndRemoved {0})"),
@@ -127,10 +153,12 @@ IMPURE_METHOD = {("ovres", "overhang_if_start_removed"): ([], "int", "(OverlapRe
                  ("premise", "makes_worse"): (["int"], "bool", "((Premise.improves {0} store {1}).map (fun b => !b))")}
 # re.match(<literal pattern>, s): the model's hand-written matcher for exactly that pattern text (tied separately: the T1 guards
 # `…Regex_expected : Gen.<name> = "<text>" := rfl` + the matcher-vs-`re` correspondence streams); any other pattern is outside the subset
-REGEX = {r"\s*$": ("(isBlankLine {0})", "bool"),
-         r"[#\s]+(.+)": ("(headerText {0})", O(("match", 1))),
-         r"(.+):(\d+)-(\d+)$": ("(tpfNameMatch {0})", O(("match", 3)))}
-ERR = {"ValueError": "value", "IndexError": "index", "KeyError": "key", "TypeError": "type", "NotImplementedError": "notImpl"}
+REGEX = {r"\s*$": ("(isBlankLine {0})", "bool", "match"),
+         r"[#\s]+(.+)": ("(headerText {0})", O(("match", 1)), "match"),
+         r"(.+):(\d+)-(\d+)$": ("(tpfNameMatch {0})", O(("match", 3)), "match"),
+         r"([A-Z]\d*|[IVX_]+|\d+[A-Z]+)": ("(isChrNameTag {0})", "bool", "fullmatch"),
+         r"^([^_]+)_.+_\d+$": ("(hapPrefixOfName {0})", O(("match", 1)), "search")}
+ERR = {"TaggingError": "tagging", "ValueError": "value", "IndexError": "index", "KeyError": "key", "TypeError": "type", "NotImplementedError": "notImpl"}
 RESERVED = {"end", "from", "at", "in", "do", "then", "else", "if", "let", "have", "show", "fun", "match", "with", "where", "by", "open",
             "section", "namespace", "def", "theorem", "instance", "structure", "class", "deriving", "import", "max", "min", "new", "this", "rows"}
 
@@ -181,6 +209,8 @@ def assigned(stmts):
                 for t in (n.targets if isinstance(n, ast.Assign) else [n.target]):
                     if isinstance(t, ast.Attribute) and dotted(t):
                         add(dotted(t).replace(".", "_"))          # an attribute path that is a declared root variable
+                    if isinstance(t, ast.Attribute) and t.attr in LABEL_FIELD:
+                        add("store")
             if isinstance(n, ast.Call) and isinstance(n.func, ast.Attribute) and n.func.attr == "append" and isinstance(n.func.value, ast.Call) \
                     and isinstance(n.func.value.func, ast.Attribute) and n.func.value.func.attr == "setdefault" and dotted(n.func.value.func.value):
                 add(dotted(n.func.value.func.value).replace(".", "_"))
@@ -205,6 +235,12 @@ def assigned(stmts):
                 add("yielded_")
             elif isinstance(n, ast.Call) and isinstance(n.func, ast.Attribute) and n.func.attr in ("add_header_line", "add_scaffold") and dotted(n.func.value):
                 add(dotted(n.func.value) + "_" + ("header" if n.func.attr == "add_header_line" else "scaffolds"))
+            elif isinstance(n, ast.Call) and isinstance(n.func, ast.Attribute) and n.func.attr in SELF_KERNELS:
+                add("self")
+            elif isinstance(n, ast.Call) and isinstance(n.func, ast.Attribute) and n.func.attr == "setdefault":
+                r = root_of(n.func.value)
+                if r:
+                    add(r)
             elif isinstance(n, ast.Call) and isinstance(n.func, ast.Name) and n.func.id == "Scaffold":
                 add("heap_sc")
             elif isinstance(n, ast.Call) and isinstance(n.func, ast.Name) and n.func.id == "FoundFragment":
@@ -273,6 +309,10 @@ class Kernel:
             return "[]"
         if frm == "nat" and to == "int":
             return f"(Int.ofNat {term})"
+        if isinstance(frm, tuple) and frm[0] == "set" and to == L(frm[1]):
+            return term
+        if isinstance(to, tuple) and to[0] == "opt" and isinstance(frm, tuple) and frm[0] == "set" and to[1] == L(frm[1]):
+            return f"(some {term})"
         if to == L("row") and frm in (L("gap"), L("frag")):
             return f"(({term}).map Row.{'gap' if frm == L('gap') else 'frag'})"
         raise Unsupported(f"cannot use a value of type {frm} where {to} is expected")
@@ -280,6 +320,10 @@ class Kernel:
     def truthy(self, term, ty):
         if ty == "bool":
             return term
+        if ty == O("str"):
+            return f"(PyRt.strTruthy {term})"       # None and "" are false
+        if isinstance(ty, tuple) and ty[0] == "opt" and isinstance(ty[1], tuple) and ty[1][0] in ("list", "set"):
+            return f"(match {term} with | some l => !l.isEmpty | none => false)"
         if isinstance(ty, tuple) and ty[0] in ("list", "dict", "set") or ty in ("str", "bytes"):
             return f"(!({term}).isEmpty)"
         if ty == "int":
@@ -507,9 +551,12 @@ class Kernel:
                         else:
                             raise Unsupported(f"identity of {ltt} and {rtt}")
                         parts.append(f"(!{c})" if neg else c)
-                elif isinstance(op, (ast.In, ast.NotIn)) and isinstance(right, (ast.Tuple, ast.List)):
-                    rt, rtt = self.expr(right, env, binds)
-                    if rtt != L(ltt):
+                elif isinstance(op, (ast.In, ast.NotIn)):
+                    if dotted(right) in CLASS_CONST:
+                        rt, rtt = CLASS_CONST[dotted(right)]
+                    else:
+                        rt, rtt = self.expr(right, env, binds)
+                    if rtt not in (L(ltt), ("set", ltt)):
                         raise Unsupported("membership test types")
                     c = f"(({rt}).contains {lt})"
                     parts.append(f"(!{c})" if isinstance(op, ast.NotIn) else c)
@@ -520,6 +567,14 @@ class Kernel:
                         raise Unsupported("comparison operator")
                     if ltt == "nat" and rtt == "int":
                         lt, ltt = f"(Int.ofNat {lt})", "int"
+                    if sym in ("=", "≠") and rtt == O(ltt):
+                        lt, ltt = f"(some {lt})", rtt           # a value compared with a value-or-None
+                    elif sym in ("=", "≠") and ltt == O(rtt):
+                        rt, rtt = f"(some {rt})", ltt
+                    if sym in ("=", "≠") and ltt == rtt and ltt in (O("str"), O("int")):
+                        parts.append(f"decide ({lt} {sym} {rt})")
+                        lt, ltt = rt, rtt
+                        continue
                     if ltt != rtt or ltt not in ("int", "str", "bytes", "bool") or (ltt != "int" and sym not in ("=", "≠")):
                         raise Unsupported(f"comparison of {ltt} and {rtt}")
                     parts.append(f"decide ({lt} {sym} {rt})")
@@ -559,6 +614,10 @@ class Kernel:
                 b, tb = "[]", ta
             if ta == "emptylist" and isinstance(tb, tuple) and tb[0] == "list":
                 a, ta = "[]", tb
+            if ta == O(tb):
+                b, tb = f"(some {b})", ta
+            elif tb == O(ta):
+                a, ta = f"(some {a})", tb
             if ta != tb:
                 raise Unsupported("conditional expression with different types")
             if not sa and not sb:
@@ -577,6 +636,8 @@ class Kernel:
                         parts.append(t)
                     elif ty == "int":
                         parts.append(f"(intToStr {t})")
+                    elif ty == O("str"):
+                        parts.append(f"(PyRt.optStrText {t})")
                     else:
                         raise Unsupported("f-string field type")
                 else:
@@ -634,14 +695,14 @@ class Kernel:
                 binds.append((v, term, rty))
                 return v, rty
             return term, rty
-        if dotted(f) == "re.match" and len(e.args) == 2 and not e.keywords and isinstance(e.args[0], ast.Constant) and isinstance(e.args[0].value, str):
+        if dotted(f) in ("re.match", "re.fullmatch", "re.search") and len(e.args) == 2 and not e.keywords and isinstance(e.args[0], ast.Constant) and isinstance(e.args[0].value, str):
             pat = e.args[0].value
-            if pat not in REGEX:
-                raise Unsupported(f"regular expression {pat!r} has no matcher in the model")
+            if pat not in REGEX or REGEX[pat][2] != dotted(f)[3:]:
+                raise Unsupported(f"regular expression {dotted(f)}({pat!r}) has no matcher in the model")
             t, ty = self.expr(e.args[1], env, binds)
             if ty != "str":
                 raise Unsupported("re.match on a non-str")
-            tmpl, rty = REGEX[pat]
+            tmpl, rty, _ = REGEX[pat]
             return tmpl.format(t), rty
         if isinstance(f, ast.Name) and f.id == "tuple" and len(e.args) == 1 and not e.keywords:
             t, ty = self.expr(e.args[0], env, binds)
@@ -781,6 +842,28 @@ class Kernel:
                 v = self.fresh()
                 binds.append((v, "(mkFragment newOid " + " ".join(args) + ")", "frag"))
                 return v, "frag"
+        if isinstance(f, ast.Name) and f.id == "sorted" and len(e.args) == 1 and {k.arg for k in e.keywords} == {"key", "reverse"} \
+                and any(k.arg == "reverse" and isinstance(k.value, ast.Constant) and k.value.value is True for k in e.keywords):
+            lam = [k.value for k in e.keywords if k.arg == "key"][0]
+            xs, tx = self.expr(e.args[0], env, binds)
+            if not (isinstance(lam, ast.Lambda) and len(lam.args.args) == 1 and isinstance(tx, tuple) and tx[0] == "list"):
+                raise Unsupported("sorted(reverse=True) shape")
+            v = lam.args.args[0].arg
+            env2 = dict(env)
+            env2[v] = tx[1]
+            sub = []
+            kt, kty = self.expr(lam.body, env2, sub)
+            if sub or kty != "int":
+                raise Unsupported("sorted(reverse=True) key")
+            return f"(sortByIntKeyDesc (fun ({mg(v)} : {lean_ty(tx[1])}) => {kt}) {xs})", tx
+        if isinstance(f, ast.Name) and f.id == "zip" and len(e.args) == 2 and len(e.keywords) == 1 and e.keywords[0].arg == "strict" \
+                and isinstance(e.keywords[0].value, ast.Constant) and e.keywords[0].value.value is True:
+            (a, ta), (b, tb) = self.expr(e.args[0], env, binds), self.expr(e.args[1], env, binds)
+            if not (isinstance(ta, tuple) and ta[0] == "list" and isinstance(tb, tuple) and tb[0] == "list"):
+                raise Unsupported("zip of non-lists")
+            nm = self.fresh()
+            binds.append((nm, f"(PyRt.zipStrict {a} {b})", L(("tuple", [ta[1], tb[1]]))))
+            return nm, L(("tuple", [ta[1], tb[1]]))
         if isinstance(f, ast.Name) and f.id == "sorted" and len(e.args) == 1 and len(e.keywords) == 1 and e.keywords[0].arg == "key" \
                 and isinstance(e.keywords[0].value, ast.Lambda) and len(e.keywords[0].value.args.args) == 1:
             # sorted(xs, key=lambda v: (k1, k2)) with integer keys: Python's sort is stable and compares the key tuples lexicographically
@@ -870,6 +953,34 @@ class Kernel:
                 binds.append((nm, f"(OverhangResolver_make_fixes_imp store {mg(f.value.id)} {self.resolver_err})", ("tuple", ["store", L("premise")])))
                 binds.append(("store", f"{nm}.1", "store", "let"))
                 return f"{nm}.2", L("premise")
+            if isinstance(f.value, ast.Name) and f.value.id == "self" and env.get("self") == "namer" and m in SELF_KERNELS:
+                # a method of `self` that is a translated kernel of its own (defined earlier in this file): self moves on, the result is the value
+                lean, argt, rty = SELF_KERNELS[m]
+                args = []
+                for a, want in zip(e.args, argt):
+                    t, ty = self.expr(a, env, binds)
+                    if ty == O(want):               # a value-or-None where the callee at once uses it as an object: AttributeError on None
+                        nm0 = self.fresh()
+                        binds.append((nm0, f"(PyRt.needObj {t})", want))
+                        t, ty = nm0, want
+                    args.append(self.coerce(t, ty, want))
+                nm = self.fresh("sk")
+                binds.append((nm, "(" + " ".join([lean, "self"] + args) + ")", ("tuple", ["namer", rty])))
+                binds.append(("self", f"{nm}.1", "namer", "let"))
+                return f"{nm}.2", rty
+            if m == "setdefault" and len(e.args) == 2 and dotted(f.value) and isinstance(f.value, ast.Attribute) and isinstance(f.value.value, ast.Name) \
+                    and (env.get(f.value.value.id), f.value.attr) in FIELD:
+                # d.setdefault(k, v) on a dictionary attribute of a root object: the stored value is the result
+                root, attr = f.value.value.id, f.value.attr
+                d, td = self.expr(f.value, env, binds)
+                k, tk = self.expr(e.args[0], env, binds)
+                v, tv = self.expr(e.args[1], env, binds)
+                if not (isinstance(td, tuple) and td[0] == "dict") or tk != td[1] or tv != td[2]:
+                    raise Unsupported("setdefault types")
+                nm = self.fresh("sd")
+                binds.append((nm, f"(dSetDefault {d} {k} {v})", ("raw", f"({lean_ty(td)} × {lean_ty(td[2])})"), "let"))
+                binds.append((mg(root), f"{{ {mg(root)} with {FIELD[(env[root], attr)]} := {nm}.1 }}", env[root], "let"))
+                return f"{nm}.2", td[2]
             if m == "pop" and len(e.args) == 1:
                 # `xs.pop(i)` used as an expression: the list moves on, the popped element is the value
                 cont, tc = self.expr(f.value, env, binds)
@@ -1190,6 +1301,12 @@ class Kernel:
             t, ty = self.expr(s.value, env, binds)
             l, env2 = self.bind_var(tg.id, t, ty, env)
             return self.with_binds(binds, [l] + self.block(rest, env2, loop))
+        if isinstance(tg, ast.Attribute) and isinstance(tg.value, ast.Name) and env.get(tg.value.id) == "ovref" and tg.attr in LABEL_FIELD and "store" in env:
+            fld, pty, conv = LABEL_FIELD[tg.attr]
+            t, ty = self.expr(s.value, env, binds)
+            val = conv.format(self.coerce(t, ty, pty))
+            return self.with_binds(binds, [self.let("store", "store", f"PyRt.setLabel store {mg(tg.value.id)} (fun o => {{ o with {fld} := {val} }})")]
+                                   + self.block(rest, env, loop))
         if isinstance(tg, ast.Attribute):
             b, tb = self.expr(tg.value, env, binds)
             if not isinstance(tg.value, ast.Name) or (tb, tg.attr) not in FIELD:
@@ -1608,6 +1725,12 @@ class Kernel:
             return t, ty, "((" + ", ".join(mg(x.id) for x in s.target.elts) + ") : " + " × ".join(lean_ty(tx) for tx in ty[1][1]) + ")"
         if isinstance(s.target, ast.Name):
             t, ty = self.expr(it, env, binds)
+            if isinstance(ty, tuple) and ty[0] == "opt" and isinstance(ty[1], tuple) and ty[1][0] in ("list", "set"):
+                nm = self.fresh()
+                binds.append((nm, f"(PyRt.needIter {t})", ty[1]))      # iterating None: TypeError
+                t, ty = nm, ty[1]
+            if isinstance(ty, tuple) and ty[0] == "set":
+                ty = L(ty[1])
             if not (isinstance(ty, tuple) and ty[0] == "list"):
                 raise Unsupported("loop over a non-list")
             env_body[s.target.id] = ty[1]
@@ -1836,6 +1959,22 @@ IMP_KERNELS_7 = [
          heap=True, found_arena=True, attr_params={"self.error_length": "int"}, dict_roots={"self.fragments_found_more_than_once": FF_DICT}),
 ]
 
+NAMER_FILE = "assembly/build_utils.py"
+IMP_KERNELS_8 = [
+    dict(file=NAMER_FILE, qual="ScaffoldNamer.get_set_haplotype", lean="ScaffoldNamer_get_set_haplotype", params={"self": "namer", "haplotype": "str"}, roots=["self"], returns="str"),
+    dict(file=NAMER_FILE, qual="ScaffoldNamer.haplotig_name", lean="ScaffoldNamer_haplotig_name", params={"self": "namer"}, roots=["self"], returns="str"),
+    dict(file=NAMER_FILE, qual="ScaffoldNamer.unloc_name", lean="ScaffoldNamer_unloc_name", params={"self": "namer"}, roots=["self"], returns="str"),
+    dict(file=NAMER_FILE, qual="ScaffoldNamer.haplotype_from_first_row_name", lean="ScaffoldNamer_haplotype_from_first_row_name",
+         params={"self": "namer", "scaffold": "scaffold"}, roots=["self"], returns=O("str")),
+    dict(file=NAMER_FILE, qual="ScaffoldNamer.make_scaffold_name", lean="ScaffoldNamer_make_scaffold_name",
+         params={"self": "namer", "scaffold": "scaffold", "fragment_tags": O(("set", "str"))}, roots=["self"],
+         locals={"scaffold_name": O("str"), "haplotype": O("str"), "rank": O("int")}),
+    dict(file=NAMER_FILE, qual="ScaffoldNamer.label_scaffold", lean="ScaffoldNamer_label_scaffold", heap=True,
+         params={"self": "namer", "scaffold": "ovref", "fragment": "frag", "scaffold_tags": ("set", "str"), "original_name": "str"}, roots=["self"],
+         locals={"name": O("str"), "rank": O("int")}),
+    dict(file=NAMER_FILE, qual="ScaffoldNamer.rename_by_size", lean="ScaffoldNamer_rename_by_size", heap=True, params={"scaffolds": L("ovref")}),
+]
+
 IMP_KERNELS = [
     dict(file="assembly/indexed_assembly.py", qual="IndexedAssembly.find_overlaps", lean="IndexedAssembly_find_overlaps",
          params={"bait": "frag"}, returns=O("ovres"), locals={"ovr": O("int")},
@@ -1867,7 +2006,7 @@ IMP_KERNELS = [
 def main():
     parts = ["/- GENERATED by harness/translate_imp.py from /repo/src — do not edit -/", "import AgpTpf.Model.PyRt", "import AgpTpf.Model.PyRtHeap", "import AgpTpf.Model.Lookup",
              "import AgpTpf.Model.Fasta", "import AgpTpf.Model.Text", "set_option linter.unusedVariables false", "namespace AgpTpf.Gen.Imp", "open AgpTpf", ""]
-    for spec in IMP_KERNELS + IMP_KERNELS_2 + IMP_KERNELS_3 + IMP_KERNELS_4 + IMP_KERNELS_5 + IMP_KERNELS_6 + IMP_KERNELS_7:
+    for spec in IMP_KERNELS + IMP_KERNELS_2 + IMP_KERNELS_3 + IMP_KERNELS_4 + IMP_KERNELS_5 + IMP_KERNELS_6 + IMP_KERNELS_7 + IMP_KERNELS_8:
         parts.append(translate(spec))
     parts.append("end AgpTpf.Gen.Imp\n")
     txt = "\n".join(parts)
